@@ -176,6 +176,49 @@ func c20prop(r *simkit.Run) {
 			rt.Fatalf("building %v: %v", names, err)
 		}
 	}
+	// Other users of the same packages in the process: by draw, before or after the stack under test is built,
+	// another application builds a middleware of every kind for itself, each configured away from the defaults
+	// (its own error handlers and fallback, which answer 418 and sign it), and sends a request through them.
+	neighbours := func() {
+		teapot := utils.ErrorHandlerFunc(func(w http.ResponseWriter, _ *http.Request, _ error) {
+			w.Header().Set("X-Neighbour", "1")
+			w.WriteHeader(http.StatusTeapot)
+		})
+		var nh http.Handler = http.HandlerFunc(func(w http.ResponseWriter, _ *http.Request) { w.WriteHeader(http.StatusNoContent) })
+		wrap := func(x http.Handler, err error) {
+			must(err)
+			nh = x
+		}
+		b, err := buffer.New(nh, buffer.ErrorHandler(teapot), buffer.MaxRequestBodyBytes(1), buffer.MemRequestBodyBytes(1), buffer.Retry("IsNetworkError() && Attempts() < 2"))
+		wrap(b, err)
+		nrs := ratelimit.NewRateSet()
+		must(nrs.Add(time.Minute, 7, 7))
+		tl, err := ratelimit.New(nh, extract, nrs, ratelimit.ErrorHandler(teapot), ratelimit.Capacity(3))
+		wrap(tl, err)
+		cl, err := connlimit.New(nh, extract, 7, connlimit.ErrorHandler(teapot))
+		wrap(cl, err)
+		cb, err := cbreaker.New(nh, "ResponseCodeRatio(500, 600, 0, 600) > 0.9", cbreaker.Fallback(http.HandlerFunc(func(w http.ResponseWriter, req *http.Request) { teapot(w, req, nil) })), cbreaker.FallbackDuration(time.Hour))
+		wrap(cb, err)
+		nrr, err := roundrobin.New(nh, roundrobin.ErrorHandler(teapot))
+		must(err)
+		nrb, err := roundrobin.NewRebalancer(nrr, roundrobin.RebalancerErrorHandler(teapot))
+		must(err)
+		must(nrb.UpsertServer(mustURL("http://neighbour-a"), roundrobin.Weight(3)))
+		nh = nrb
+		tr, err := trace.New(nh, io.Discard, trace.ErrorHandler(teapot))
+		wrap(tr, err)
+		st, err := stream.New(nh)
+		wrap(st, err)
+		for _, body := range []string{"", "xx"} { // the second is over its buffer's limit
+			nreq := &http.Request{Method: "POST", URL: &url.URL{Scheme: "http", Host: "neighbour", Path: "/"}, Proto: "HTTP/1.1", ProtoMajor: 1, ProtoMinor: 1,
+				Header: http.Header{"Src": []string{"n"}}, Host: "neighbour", RemoteAddr: "10.0.0.9:1", Body: io.NopCloser(strings.NewReader(body)), ContentLength: int64(len(body)), RequestURI: "/"}
+			nh.ServeHTTP(simkit.NewRecorder(), nreq)
+		}
+	}
+	withNeighbours := rapid.SampledFrom([]int{0, 0, 1, 2}).Draw(rt, "neighbours-in-the-process")
+	if withNeighbours == 1 {
+		neighbours()
+	}
 	var h http.Handler = innermost
 	sinkFaults := 0
 	layers := make([]*layer, depth)
@@ -287,6 +330,12 @@ func c20prop(r *simkit.Run) {
 		}
 	}
 	top := h
+	if withNeighbours == 2 {
+		neighbours()
+	}
+	if withNeighbours != 0 {
+		r.Probe("neighbour-middlewares-in-the-process")
+	}
 
 	writerKind := rapid.SampledFrom([]string{"hijackable", "hijackable", "hijack-refused", "plain"}).Draw(rt, "client-writer")
 	clientWriter := func(rec *simkit.Recorder) http.ResponseWriter {
